@@ -411,6 +411,9 @@ class LiveMedia(MediaRequestBase):
             logging.warning('stream.timing_reference has not been configured')
             return flask.make_response(
                 'stream.timing_reference has not been configured', 404)
+        if representation is None:
+            logging.warning('Media file %s needs indexing', filename)
+            return flask.make_response('Media file needs indexing', 404)
         if representation.encrypted and not options.encrypted:
             logging.warning('Request for an encrypted stream, when drmSelection is empty')
             return flask.make_response(
